@@ -162,6 +162,14 @@ fn eval_defs(n: &Node, at: P) -> Option<(P, f64)> {
             let e: f64 = d.parse().ok()?;
             Some((cpow(a, (e, 0.0)), 1e-9))
         }
+        Expr::Post(p, x) => {
+            let a = exact(x)?;
+            match p {
+                PostOp::Deg => Some((mul(a, (std::f64::consts::PI / 180.0, 0.0)), 1e-9)),
+                PostOp::Rad => Some((mul(a, (180.0 / std::f64::consts::PI, 0.0)), 1e-9)),
+                _ => None,
+            }
+        }
         Expr::Bin(b, l, r) => {
             let a = exact(l)?;
             let c = exact(r)?;
@@ -259,7 +267,7 @@ pub fn c08(cx: &RunCtx) {
     bins.push(BinKind::Call(Func::Pow));
     bins.push(BinKind::Call(Func::Root));
     bins.push(BinKind::Call(Func::Log));
-    let mut uns: Vec<UnOp> = vec![UnOp::Neg, UnOp::Sup2];
+    let mut uns: Vec<UnOp> = vec![UnOp::Neg, UnOp::Sup2, UnOp::Deg, UnOp::Rad];
     for f in all_funcs1() {
         uns.push(UnOp::Call(f));
     }
